@@ -78,6 +78,7 @@ class ClassTable:
         self.classes = {}
         self.funcs = {}
         self.sources = {}
+        self.modules = list(modules)
         for m in modules:
             src = inspect.getsource(m)
             tree = ast.parse(src)
@@ -808,6 +809,15 @@ class Compiler:
             return k(g)
         if e.id in ("int", "str", "bool") or e.id in self.ctors or e.id in EXC_PARENTS:
             return k(("c", ("type", e.id)))
+        # a plain module-level constant of one of the translated modules (also one that a change introduced):
+        # its current value, read from the module itself
+        for mod in getattr(self.ct, "modules", []):
+            if e.id in vars(mod):
+                v = vars(mod)[e.id]
+                if v is None or isinstance(v, (bool, int, str)):
+                    return k(("c", v))
+                if isinstance(v, float):
+                    return k(("c", "<number>"))  # durations: the model only distinguishes None from a number
         raise Unsupported(f"unbound name {e.id} in {getattr(ctx, 'qual', '?')} (line {e.lineno})")
 
     def comp_globals(self):
